@@ -69,6 +69,34 @@ CHECKS.update({
 ENGINES_EXTRA.append({'name': 'policy', 'path': 'coq/theories/Fmt/Policy.v + harness/policy_check.py', 'serves_properties': ['C15'],
   'kind_free_text': 'model of the readers\' policy save/restore wrapper; corruption stream against the three real readers'})
 
+CHECKS.update({
+ 'C04': dict(engine='verilog', note='Trusted: Coq 8.16.1 kernel; extraction (ExtrOcamlBasic only); ocaml/driver_verilog.ml; harness/verilog_*.py (independent generator and writer, canonical dump, WF checker). Tokenisation and the document level (module table, header aliases, parameters, attributes, options) are NOT modelled: the whole-pipeline statement C04_full is a Definition decided by the oracle on the implementation only. Open known findings V04-*. All theorems: Closed under the global context.',
+   technique='Coq proof about Gallina models of the reader/writer index mechanisms, run against the real helper methods (extracted model) + round-trip oracle on the implementation (independent generator/writer, bundled files, uniquify/flatten/clone, composer options)',
+   text='proof (mechanisms; refuted clause): for all ranges and wire lists: slice written/read inverse, [msb:lsb] declaration inverse, _write_concatenation pieces expand back to the original wire list, low-end alignment, one instance port incl. the slice-or-concatenation decision, single-bit assign (Props/C04.v). The multi-bit assign clause is REFUTED in the faithful model (C04_assign_clause_refuted: the writer raises) and replayed on the implementation as open known finding. C04_full (whole pipeline) is not proved; it is checked by the bit-level round-trip oracle.',
+   design='DESIGN.md 5/C04, 10'),
+ 'C06': dict(engine='verilog', note='Trusted: as C04. The reader picks references[0] from a Python set (modelled as nondeterminism). Bundled files are checked for acceptance, well-formedness and top = unique root only. Open known findings V06-*.',
+   technique='Coq proof about Gallina models of the reader mechanisms (expression denotation, port map alignment, bundle growth/re-basing, top election) run against the real helper methods + oracle: abstract designs rendered by an independent writer vs the parsed netlist',
+   text='proof (mechanisms; refuted clauses): the connection clause for every expression shape and port width (C06_expr_denote, C06_port_map_denote: bit k of the expression joins pin k and nothing else), bundle growth and re-basing laws for all ranges and call sequences (C06_grow_rebase_correct, C06_rebase_shift). The top-election and assign-pin clauses are REFUTED in the faithful model (C06_top_clause_refuted, C06_assign_clause_refuted), witnesses replayed on the implementation as open known findings. C06_full is not proved; it is checked by the oracle.',
+   design='DESIGN.md 5/C06, 10'),
+ 'C11': dict(engine='hier', note='Trusted: Coq 8.16.1 kernel; extraction; ocaml/driver_hier.ml (memoises the state maps); harness/hier_*.py. hrefs_of_item, is_unique, name and non-netlist roots are covered by correspondence and the independent path-enumeration oracle only (C11_*_full Definitions). Flyweight identity (same path => same object, equal hash) is runtime behaviour, checked on the implementation with `is` and hash. One open known finding (instance without reference).',
+   technique='Coq proof about a Gallina model of the HRef kernels (paths as id lists over the IR heap model) + extracted-model correspondence + independent recursive path-enumeration oracle',
+   text='proof: for every well-formed acyclic heap the recursive/non-recursive netlist enumerations of instances, ports, pins, cables and wires return exactly the occurrences, each once, and terminate with fuel next s + 1 (pigeonhole); is_valid decides the reference relation in ANY heap and equals the path relation after any edit history (C11_is_valid_after_any_history, using the C01/C02 invariants).',
+   design='DESIGN.md 5/C11, 10'),
+ 'C12': dict(engine='hier', note='Trusted: as C11. Port and cable starts and get_hcables are by correspondence and the union-find oracle only (C12_full is a Definition). The hypotheses (C01/C02 invariants, local pin-wire links, acyclicity) are evaluated as booleans on every generated netlist on both sides.',
+   technique='Coq proof (generic work-list closure theorem instantiated to the tracing kernels) + extracted-model correspondence + independent union-find elaboration oracle',
+   text='proof: get_hwires(selection=ALL) from any wire or pin occurrence returns exactly its class under the connectivity relation conn (least equivalence over port-boundary crossings), hence members of a net agree (C12_all, C12_symmetric, C12_all_from_pin); INSIDE/OUTSIDE from a pin return exactly the wire on that side (a pin of the top has none outside); get_hpins(hwire) returns exactly the attached pin occurrences; the generic closure is correct for fuel >= start size + pin slots of the universe.',
+   design='DESIGN.md 5/C12, 10'),
+ 'C20': dict(engine='cmp', note='Trusted: Coq 8.16.1 kernel; extraction; ocaml/driver_cmp.ml; harness/cmp_*.py. Names are str or None, property values str/int/bool/None; netlists are assumed to satisfy the C01/C02 invariants and name lookup = scan (C10). Domain hypotheses wf_named and no_asg are explicit and shown necessary by refutation lemmas. 9 open known findings.',
+   technique='Coq proof on a Gallina model of Comparer (statement by statement) + differential run of the extracted model vs the real Comparer on (netlist, copy, single mutation) pairs + model-independent oracle + kernel re-evaluation of the witnesses',
+   text='proof (refuted at full strength): accepts every well-formed named netlist against itself (C20_accepts); rejects with AssertionError each of 19 single-difference classes (direction, width, array-ness, cable width, connection moved to another instance/port/bit, reference, property, add/drop of library/definition/port/cable/instance) for named netlists without assignment-style instance names (C20_rejects_*); C20_full is REFUTED (extra properties on the copy, assignment instances, unnamed elements) with witnesses replayed on the implementation as open known findings.',
+   design='DESIGN.md 5/C20, 10'),
+})
+ENGINES_EXTRA += [
+ {'name': 'verilog', 'path': 'coq/theories/Fmt/V*.v + ocaml/driver_verilog.ml + harness/verilog_*.py', 'serves_properties': ['C04', 'C06'], 'kind_free_text': 'index/expression/growth/top-election mechanisms of the Verilog reader and writer; mechanism-level differential run; design-level oracles'},
+ {'name': 'hier', 'path': 'coq/theories/Hier + ocaml/driver_hier.ml + harness/hier_*.py', 'serves_properties': ['C11', 'C12'], 'kind_free_text': 'hierarchical references and tracing kernels over the IR heap model; differential run on netgen netlists; path-enumeration and union-find oracles'},
+ {'name': 'cmp', 'path': 'coq/theories/Cmp + ocaml/driver_cmp.ml + harness/cmp_*.py', 'serves_properties': ['C20'], 'kind_free_text': 'model of compare_netlists.Comparer on pure netlist values; differential run on (netlist, copy, mutation) pairs'},
+]
+
 ENGINES = [
  {'name': 'ir', 'path': 'coq/theories/IR + ocaml/driver_ir.ml + harness/ir_*.py', 'serves_properties': ['C01', 'C02', 'C10', 'C14', 'C19'],
   'kind_free_text': 'Gallina model of all public IR mutators and of the namespace manager, extracted to OCaml; differential run against the real spydrnet with canonical dumps after every call'},
